@@ -142,4 +142,27 @@ EndVerdict(m) ==
            \o ToString(m.n) \o " calls, a uniform source shows >= " \o ToString(MinDistinct(m.n))>>
      ELSE <<>>
 
+(* ------------------------------------------------- sub-histories per input class ---- *)
+(* An input-dependent fast path (empty plaintext, empty stream, empty message ...) is    *)
+(* exactly where a fresh draw gets skipped.  The calls of one key rotate through input    *)
+(* CLASSES (plaintext length 0/1/15/16/17/100 ...); a FAMILY holds one monitor for the     *)
+(* whole history ("all") and one per class, all fed by the same Emit.  NoRepeat is judged   *)
+(* on every member after every call; the uniformity conditions on the whole history (which   *)
+(* must be long enough) and on every class sub-history of at least MinEvents calls.          *)
+NewFamily(fields, classes) == [c \in classes \cup {"all"} |-> NewMon(fields)]
+EmitFamily(fam, cls, values) ==
+  [c \in DOMAIN fam |-> IF c = "all" \/ c = cls THEN EmitMon(fam[c], values) ELSE fam[c]]
+
+Tag(v, c) == IF v = <<>> \/ c = "all" THEN v ELSE <<v[1], v[2], v[3] \o " [calls of input class " \o c \o "]">>
+FamilyNoRepeat(fam) == \A c \in DOMAIN fam : NoRepeatIn(fam[c])
+FamilyRepeatVerdict(fam) ==
+  LET badc == {c \in DOMAIN fam : RepeatVerdict(fam[c]) # <<>>} IN
+  IF badc = {} THEN <<>>
+  ELSE LET c == IF "all" \in badc THEN "all" ELSE CHOOSE x \in badc : TRUE IN Tag(RepeatVerdict(fam[c]), c)
+FamilyEndOK(fam) == /\ Judgeable(fam["all"])
+                    /\ \A c \in DOMAIN fam : (c = "all" \/ fam[c].n >= MinEvents) => EndOKIn(fam[c])
+FamilyEndVerdict(fam) ==
+  IF EndVerdict(fam["all"]) # <<>> THEN EndVerdict(fam["all"])
+  ELSE LET badc == {c \in DOMAIN fam \ {"all"} : fam[c].n >= MinEvents /\ EndVerdict(fam[c]) # <<>>} IN
+       IF badc = {} THEN <<>> ELSE LET c == CHOOSE x \in badc : TRUE IN Tag(EndVerdict(fam[c]), c)
 ================================================================================
